@@ -41,9 +41,8 @@ func TestVerifApply(t *testing.T) {
 	seed, n := vs.Params(10000)
 	out := vs.OpenOut()
 	defer out.Close()
-	only := vs.Only()
 	for i := 0; i < n; i++ {
-		if only >= 0 && i != only {
+		if !vs.Mine(i) {
 			continue
 		}
 		g := vs.NewOGen(vs.CaseRand(seed, i))
